@@ -157,10 +157,11 @@ pub fn handle(ctx: &mut ExecCtx, cmd: &str, req: &Value) -> Result<Value, String
                     }
                 }
                 if let Some(p) = h.get("call_pages").and_then(|t| t.as_array()) {
-                    for v in p {
+                    for (i, v) in p.iter().enumerate() {
                         ctx.state.push_call_page(v.as_u64().unwrap_or(0) as u32);
                         ctx.state.call_depth_inc();
-                        ctx.state.push_call_stack(v.as_u64().unwrap_or(0) as u32);
+                        // open call frames of both widths (near = 16, far = 24 return bits)
+                        ctx.state.push_call_frame(v.as_u64().unwrap_or(0) as u32, if i % 2 == 0 { 24 } else { 16 });
                     }
                 }
             }
